@@ -3884,8 +3884,12 @@ class CaseNode(Node):
 
 class OptionalNode(ActionSinkNode):
     def __init__(self, sub_contents: Node):
-        self.sub_contents = sub_contents
         self.start_actions = []
+        if isinstance(sub_contents, ActionSourceNode):
+            # actions at the head of the body (directly, or handed up by a try / loop / foreach that starts it) run when the body is entered
+            head_actions, sub_contents = sub_contents.adopt_actions_from()
+            self.start_actions.extend(head_actions)
+        self.sub_contents = sub_contents
         self.finish_actions = []
         self.next = None
 
@@ -3985,7 +3989,8 @@ class LoopNode(ActionSinkNode, ActionSourceNode):
         # Reroute all transitions with a BreakAction in them that corresponds to our break action to go to us immediately as an optimization.
         for transition in sub_dfa.transitions_that_do(self.break_action):
             transition.to(self.end_state)
-            transition.actions.remove(self.break_action)
+            # what was chained behind the break (e.g. the actions that follow a case whose clause breaks) is not reached
+            del transition.actions[transition.actions.index(self.break_action):]
             transition.actions.extend(self.after_break_actions)
             should_try_to_append = True
 
